@@ -8,7 +8,7 @@ from verif.engine import Ob
 from verif.jaxfuncs import FUNCS
 
 LEVEL = "translation_validation"
-BOUNDS = {"functions": "the 14-function interpreter grammar plus functions containing initial-style primitives (at top level, inside cond and inside scan)", "handler": "handles no primitive"}
+BOUNDS = {"functions": "the 14-function interpreter grammar plus functions containing initial-style primitives (at top level, inside cond and inside scan)", "handler": "handles no primitive", "dtypes": "float32 / int32 / bool inputs throughout, plus Python-scalar (weakly typed) arguments meeting int16 / float16 arrays; output dtypes and weak-type flags are compared as constants"}
 ASSUMPTIONS = []
 OUTSIDE = ["handlers that handle primitives (exercised through the static language in C01-C07)"]
 
@@ -49,10 +49,44 @@ EXTRA = {
 }
 
 
+def dtypes(t):
+    """dtype and weak-type of every output leaf as integer constants (static facts of the staged program)"""
+    return [jnp.int32(jnp.dtype(jnp.result_type(x)).num * 2 + int(bool(getattr(jax.core.get_aval(x), "weak_type", False)))) for x in jax.tree_util.tree_leaves(t)]
+
+
+def with_dtypes(a, b):
+    return (a, dtypes(a)), (b, dtypes(b))
+
+
+# Python scalars (weakly typed) meeting narrow-dtype arrays: type promotion inside the staged program must be that of ordinary evaluation
+def weak_gain(px):
+    g = lambda x, k: x * k + 1  # noqa: E731
+    return with_dtypes(stateful(g)(Null(), px, 2), g(px, 2))
+
+
+def weak_cond(c, h):
+    g = lambda c, x, k: jax.lax.cond(c, lambda x: x * k, lambda x: x, x)  # noqa: E731
+    return with_dtypes(stateful(g)(Null(), c, h, 1.5), g(c, h, 1.5))
+
+
+def weak_mix(h, y):
+    g = lambda x, k, y: (x * k, y * k, k + 1)  # noqa: E731
+    return with_dtypes(stateful(g)(Null(), h, 3, y), g(h, 3, y))
+
+
+WEAK = {
+    "python-int*int16": (weak_gain, (jnp.array([10, 100, 200], jnp.int16),)),
+    "python-float*float16-in-cond": (weak_cond, (jnp.array(True), jnp.array([1.0, 2.0], jnp.float16))),
+    "python-int*(float16,float32)": (weak_mix, (jnp.array([1.0, 2.0], jnp.float16), F(2.0))),
+}
+
+
 def obligations(tier, seed):
     obs = []
     for nm, (f, args) in {**FUNCS, **EXTRA}.items():
-        obs.append(Ob(f"C36/transparent/{nm}", lambda *a, f=f: (stateful(f)(Null(), *a), f(*a)), args, note="stateful(f)(null handler, *x) == f(*x) for all x"))
+        obs.append(Ob(f"C36/transparent/{nm}", lambda *a, f=f: with_dtypes(stateful(f)(Null(), *a), f(*a)), args, note="stateful(f)(null handler, *x) == f(*x) for all x, with the same output dtypes"))
+    for nm, (h, args) in WEAK.items():
+        obs.append(Ob(f"C36/weak-types/{nm}", h, args, selfcheck=False, note="Python-scalar arguments next to narrow-dtype arrays: values and result dtypes (type promotion) as in ordinary evaluation"))
     for nm, (f, args) in EXTRA.items():
         plain = {"isp_top": lambda x, y: (x * 2.0 + y) * (x - y),
                  "isp_in_cond": lambda c, x, y: jnp.where(c, x * 2.0 + y, x),
